@@ -686,6 +686,14 @@ class Peer:
             n = rng.choice([1, 2, 3, 7, 8, 9, 50, 1000, len(data)])
             buf = self.con._read_buffer(buf + data[i:i + n])
             i += n
+            if len(self.cch._inbound) == 1:
+                # the application polls while only the Basic.Deliver frame has arrived: nothing to hand over yet, and
+                # nothing may be taken off the queue
+                early = self.cch._build_message(auto, Message)
+                if early is not None or len(self.cch._inbound) != 1:
+                    self.cch._inbound.clear()
+                    return None, 'a poll with only the Deliver frame queued took it off the queue'
+
         if buf:
             return None, 'residual %d bytes' % len(buf)
         if getattr(self, 'refused', None):
